@@ -175,6 +175,8 @@ Poll(o) ==
           \/ o = "confirm" /\ phase = "lesc_keys"
           \/ o = "dhkey"   /\ phase = "lesc_rand" /\ ea = "good" /\ UserOk   \* deferred Eb: the stored Ea was correct
           \/ o = "failed"                                             \* giving up is always allowed
+    \* C34: every distributed item is judged against the encryption state *of this call* (`enc` follows every Enc
+    \* event and is compared with the connection's is_encrypted() after every event), not of an earlier poll
     /\ E("C34") => (o \in Items => enc /\ o \in budget)
     /\ CASE o = "confirm" /\ phase = "lesc_keys" ->
               /\ phase' = "lesc_conf"
